@@ -332,11 +332,11 @@ def main():
             if replay is None and viol:
                 replay = re.search(r"replay=(\S+)", viol[0]).group(1)
             if replay:
-                rep_mut = sh(f"./check C04 --replay {replay}", timeout=300).returncode
+                rep_mut = sh(f"./check C04 --replay {replay}", timeout=1500).returncode
         finally:
             subprocess.run(["git", "-C", str(REPO), "checkout", "--", "."], check=True)
         if replay:
-            rep_clean = sh(f"./check C04 --replay {replay}", timeout=300).returncode
+            rep_clean = sh(f"./check C04 --replay {replay}", timeout=1500).returncode
         rows.append((name, r.returncode, sorted(set(fails)), broken, len(viol), rep_mut, rep_clean))
         print(rows[-1], flush=True)
     print()
